@@ -174,6 +174,9 @@ class C02(Property):
         cur_type = st["prod"]
       return node, cur_type, exact
 
+    if W.chance("record", 1, 60):
+      return {"srcs": {}, "base": {"rec": {"chunk_size": W.pick("rcs", [
+        1, 2, 3, 4, 8])}}, "fan": "none", "tails": [None]}
     depth = W.weighted("depth", [(4, 1), (3, 2), (2, 3)])
     base, typ, exact = gen_chain(depth)
     fan = W.weighted("fan", [(5, "none"), (2, "copy"), (2, "tee"),
